@@ -15,6 +15,16 @@ CHECKS = {
    note="Trusts reference arithmetic; coefficient alphabets (7-16 members) instead of all coefficients.",
    technique="bounded-exhaustive enumeration of operand tuples against a reference model",
    engine="fields", design_ref="§4 C08"),
+ "C12": dict(category="exploration",
+   text="Every member of boundary alphabets of every serializable type (sizes around every vint64 length, nested collections, all field/extension/digest types, the full product of legal ProofOptions, every legal TraceInfo width pair, contexts, commitments, query sets up to 255x255, OOD frames up to 255 columns, FRI proofs up to 256 remainder coefficients) is encoded and decoded through all three reader implementations (ReadAdapter with three chunkings), with exact-consumption checked by sentinel bytes; second-level parse() of proof components must return what the constructors were given.",
+   note="Values are built through public constructors; equality is the types' PartialEq; whole Proof values are covered by C01's corpus.",
+   technique="bounded-exhaustive enumeration of values x reader implementations (round-trip oracle)",
+   engine="serial", design_ref="§4 C12"),
+ "C13": dict(category="model_checking",
+   text="Explicit-state breadth-first search over operation histories of the real ReadAdapter (rebuilt by re-execution), for 28-42 streams x 10 chunkings of the underlying source, all ByteReader operations with boundary size arguments, depth 3 (quick) / 5 (thorough); every transition is executed in lock step on SliceReader and compared (values, errors, optimistic look-ahead only before EOF was observed). States are de-duplicated on the adapter's internal buffers (verif hook), source position and reference position.",
+   note="SliceReader is the reference; sources that return Ok(0) before their end are outside the run; histories are not extended past their first agreed error. Runs with debug assertions so that unsafe copies guarded by debug_assert fail loudly; a crash of the harness process is reported as a violation.",
+   technique="explicit-state model checking of the implementation against a reference reader (lock-step conformance on every transition)",
+   engine="serial", design_ref="§4 C13"),
 }
 
 ALL = ["C%02d" % i for i in range(1, 21)]
@@ -53,6 +63,7 @@ def main():
         "engines": [
             {"name": "kit", "path": "harness/kit", "serves_properties": ALL, "kind_free_text": "bounded-exhaustive explorer with watchdog (E1), level-synchronous explicit-state BFS (E2), evidence/replay/known-findings, reference arithmetic"},
             {"name": "fields", "path": "harness/bins/fields", "serves_properties": ["C07", "C08"], "kind_free_text": "alphabet products + representation reachability"},
+            {"name": "serial", "path": "harness/bins/serial", "serves_properties": ["C12", "C13"], "kind_free_text": "round-trip enumeration over readers; BFS over reader histories"},
         ],
         "checks": checks,
         "not_applicable": [{"property_id": p, "reason": PENDING_REASON} for p in ALL if p not in CHECKS],
